@@ -15,6 +15,7 @@ Plan gen_c06(uint64_t seed, int tier)
   p.cfg["fo"] = fo;
   gen_sched(p, r);
   gen_backend(p, r, true);
+  gen_backend_mode(p, r);
   p.cfg["grace_us"] = r.pick<int64_t>({0, 1, 1, 1, 20});
   gen_loggers_and_sinks(p, r);
   int nsinks = static_cast<int>(p.cfg["nsinks"]);
